@@ -147,7 +147,7 @@ def scenario(ctx):
 	ch = ctx.ch
 	if not omp.available():
 		raise HarnessError('C08 needs the gompsim shim preloaded')
-	world, pool = build_world(ctx, ch)
+	world, pool = build_world(ctx, ch, n_ref_range=(3, 60) if ctx.tier == 'thorough' else (3, 25))
 	refs = Refs(ctx, world, pool)
 	n_ref = len(world.genomes)
 	npool = len(pool.genomes)
